@@ -36,9 +36,12 @@ type ModelCase struct {
 	UseDb bool `json:"use_db,omitempty"`
 	// UsePo: templates and labels are served by resource.PoResource over gettext catalogues
 	UsePo bool `json:"use_po,omitempty"`
+	// Prior (Mode.Reuse): what another session asked before, served through the same
+	// persister object
+	Prior []BS `json:"prior,omitempty"`
 }
 
-var modelModes = []app.Mode{{Kind: "long"}, {Kind: "long"}, {Kind: "persist", Backend: "mem"}}
+var modelModes = []app.Mode{{Kind: "long"}, {Kind: "long"}, {Kind: "persist", Backend: "mem"}, {Kind: "persist", Backend: "mem"}, {Kind: "objects"}}
 
 func genModelHistory(t *rapid.T, a *app.App, maxLen int) []BS {
 	h := GenHistory(t, a, HistOpts{MaxLen: maxLen, Junk: true})
@@ -118,6 +121,7 @@ func genC03(t *rapid.T) ModelCase {
 	o := c03Opts
 	o.Sinks = chancePct(t, 20, "sinks")
 	o.OutputSize = o.Sinks && chancePct(t, 50, "sized")
+	o.Langs = chancePct(t, 25, "langs")
 	a := GenApp(t, o)
 	modelFriendly(a)
 	return ModelCase{App: a, Inputs: genModelHistory(t, a, 8), Mode: modelModes[uniformN(t, len(modelModes), "mode")]}
@@ -193,7 +197,7 @@ func genC04(t *rapid.T) ModelCase {
 	}
 	modelFriendly(a)
 	mode := modelModes[uniformN(t, len(modelModes), "mode")]
-	return ModelCase{App: a, Inputs: genGuidedHistory(t, a, 16, mode.Kind == "persist"), Mode: mode}
+	return ModelCase{App: a, Inputs: genGuidedHistory(t, a, 16, mode.PerRequest()), Mode: mode}
 }
 
 func checkC04(c ModelCase) (o Outcome) {
